@@ -27,7 +27,8 @@ REQUIRED_THEOREMS = [
     "adaptive_ends_at_or_after_tend", "adaptive_overshoot_lt_dtmin", "adaptive_exact_end",
     "global_error_le_sum_local", "euler_local_error_le_estimate",
     "implicitStep_cells", "cnStep_cells", "rkf45_amp5", "rkf45_quadrature", "adaptive_euler_global_error",
-    "adaptive_euler_model_global_error", "ctl_constants_sane",
+    "adaptive_euler_model_global_error", "adaptive_richardson_model_global_error", "ab2Stepper_persistent",
+    "ctl_constants_sane",
 ]
 
 # theorems of Props/C06.lean whose statement is about the constants of Generated/Tableau.lean:
